@@ -433,10 +433,11 @@ def _verify_mechanism(facts, e, st, f, mech):
                 return False, "OracleAccessor::new is given pool %s" % acc(k)
         return True, "OracleAccessor::new(%s, %s)" % (pool, f.name)
     if mech == "badge":
-        bad = [n for n, p in real if n not in ("verify_supported_token_mint", "is_non_transferable_position_required")]
-        if bad or "verify_supported_token_mint" not in names:
-            return False, "badge account must only feed verify_supported_token_mint / is_non_transferable_position_required (uses %s)" % sorted(names)
-        return True, "seeds (C19.R5) + verify_supported_token_mint"
+        # (verify_supported_token_mint is read spliced in: the badge feeds its is_token_badge_initialized lookup, C19.R5 decides the rest)
+        bad = [n for n, p in real if n not in ("verify_supported_token_mint", "is_token_badge_initialized", "is_non_transferable_position_required")]
+        if bad or not ({"verify_supported_token_mint", "is_token_badge_initialized"} & set(names)):
+            return False, "badge account must only feed the support test of its mint / is_non_transferable_position_required (uses %s)" % sorted(names)
+        return True, "seeds (C19.R5) + the support test of its mint"
     if mech == "rent-receiver":
         closers = [x for x in st.fields if "receiver" in x.values("close")]
         bad = [n for n, p in real if n not in ("burn_and_close_user_position_token", "burn_and_close_user_position_token_2022", "burn_and_close_position_bundle_token",
